@@ -39,6 +39,10 @@ def histories(n, key):
         hs.append([("seek", n - 1), ("it", -1), ("seek", 0), ("it", 1), ("nth", n - 1), ("it", -1)])
         # iterator adaptors: skip / take inside and beyond the index
         hs.append([("skiptake", 1, 1), ("skiptake", n, 1), ("seek", 0), ("skiptake", n - 1, 2), ("nth", 0), ("skiptake", 0, n + 1)])
+    # the bulk read (`read` / `read_as`), fresh and after a seek
+    hs.append([("readall",)])
+    if n:
+        hs.append([("seek", n - 1), ("count",), ("readall",)])
     return hs
 
 
@@ -116,7 +120,8 @@ def run(rep, tier, rng):
                        "nth in non-monotone order + partial iteration + nth + iterate; seek + iterate}; generic and typed; "
                        "oracle: answers = abstract reader over the Python denotation of the records in index order; "
                        "plus indexes with an entry pointing beyond the end of the .shp (word offsets up to i32::MAX) and one index of "
-                       "more than 1024 entries in reversed physical order (implementation + oracle only); "
+                       "more than 1024 entries in reversed physical order (implementation + oracle only), the bulk read (read / read_as) "
+                       "fresh and after a seek, rotated layouts placed on disk under plain and dotted names and read by path; "
                        "non-trivial = distinct case" % (nmodels, maxperm))
     impl = stages.correspondence(rep, "read", dev, cases, "read(permuted/filler layouts)")
     nfail = 0
@@ -129,6 +134,27 @@ def run(rep, tier, rng):
             if nfail == 1:
                 rep.violation({"kind": "oracle", "what": msg, "case_kind": "read", "case": c, "ops": ops,
                                "physical_order": list(perm), "filler_words": fillers, "type": code})
+    # ---- permuted layouts on disk under a dotted name, read through the path-based one-liners (which must find and
+    # follow the .shx beside the .shp)
+    import pathio
+    pn = 0
+    for mi in range(10 if tier != "thorough" else 40):
+        code = F.ALL_TYPES[(5 * mi + 1) % 13]
+        model = F.gen_model(rng, code, nrecs=3 + mi % 2, null_prob=0.0, allow_degenerate=False)
+        model.pop("trailing", None)
+        nrec = len(model["records"])
+        perm = tuple(list(range(1, nrec)) + [0])          # a rotation: not an involution
+        shp, entries = build_layout(rng, model, perm, [1] * (nrec + 1), lambda k: bytes(k))
+        shx = refesri.encode_shx(model, entries=entries)
+        msg = pathio.check(rep, dev, "c14", ["plain%d" % mi, "parcels.v%d" % mi, "survey.2024.%d" % mi][mi % 3], shp, shx, code,
+                           "permuted layout with index on disk")
+        pn += 1
+        if msg:
+            nfail += 1
+            if nfail == 1:
+                rep.violation({"kind": "oracle", "what": msg, "case_kind": "path", "physical_order": list(perm)})
+    pathio.cleanup("c14")
+    rep.cov["permuted_layouts_read_by_path"] = pn
     # entries beyond the end
     far_impl = stages.correspondence(rep, "read_far", dev, far_cases, "read(index entries beyond the end of the .shp)")
     for c, (items, at, far, ops), r in zip(far_cases, far_meta, far_impl):
